@@ -11,7 +11,7 @@ use refimpl::wire::{NegReply, INFO_AUTOLOGON};
 use serde::{Deserialize, Serialize};
 
 pub const LEVEL: &str = "exploration";
-pub const RULE: &str = "case = (option combination of {NLA, restricted admin, blank credentials, auto logon, password vs NT hash}, credential strings, server certificate key type) run as a whole connection through Connector::connect over real TLS against the reference CredSSP/NTLM + RDP server. Oracle: TSCredentials (unsealed by the reference server) and Client Info (strictly parsed) carry exactly what the mode prescribes (restricted admin: both empty and RESTRICTED_ADMIN_MODE_REQUIRED in the negotiation request; blank credentials: TSCredentials empty, Client Info populated; hash mode: TSCredentials password empty; INFO_AUTOLOGON iff requested); the password's UTF-8 / UTF-16LE / UTF-16BE encodings occur nowhere in the raw-transport transcript, in the NTLM tokens, or in any TLS-protected message other than TSCredentials and Client Info. clear-text-server: the negotiation reply selects plain RDP security or nothing at all (never offered) and the reference server carries on in clear text, the raw transcript must not contain the password whatever connect returns. option-matrix enumerates all 32 combinations twice with generated strings, and again x {empty, short, long, non-ASCII} password x {empty, non-empty} domain x {certificate checking on with the CA-signed identity, off}. Non-trivial = password with >= 6 UTF-16 units of which >= 4 distinct; distinct by hash of the case.";
+pub const RULE: &str = "case = (option combination of {NLA, restricted admin, blank credentials, auto logon, password vs NT hash}, credential strings, server certificate key type) run as a whole connection through Connector::connect over real TLS against the reference CredSSP/NTLM + RDP server. Oracle: TSCredentials (unsealed by the reference server) and Client Info (strictly parsed) carry exactly what the mode prescribes (restricted admin: both empty and RESTRICTED_ADMIN_MODE_REQUIRED in the negotiation request; blank credentials: TSCredentials empty, Client Info populated; hash mode: TSCredentials password empty; INFO_AUTOLOGON iff requested); the password's UTF-8 / UTF-16LE / UTF-16BE encodings occur nowhere in the raw-transport transcript, in the NTLM tokens, or in any TLS-protected message other than TSCredentials and Client Info. licence-variants: the server answers the Client Info PDU with licensing error alerts of every error code x state transition (incl. ST_RESEND_LAST_MESSAGE) and other message types; connect may fail, but every Client Info PDU the server receives obeys the mode and no other frame contains the password. clear-text-server: the negotiation reply selects plain RDP security or nothing at all (never offered) and the reference server carries on in clear text, the raw transcript must not contain the password whatever connect returns. option-matrix also reconfigures a used Connector: every ordered pair of the 16 combinations of {NLA, restricted admin, blank credentials, auto logon} as (first connection, observed connection). option-matrix enumerates all 32 combinations twice with generated strings, and again x {empty, short, long, non-ASCII} password x {empty, non-empty} domain x {certificate checking on with the CA-signed identity, off}. Non-trivial = password with >= 6 UTF-16 units of which >= 4 distinct; distinct by hash of the case.";
 
 #[derive(Serialize, Deserialize, Hash, Clone, Debug)]
 pub struct Case {
@@ -19,6 +19,10 @@ pub struct Case {
     pub identity: u8,
     pub challenge: ntlm::Challenge,
     pub user_id: u16,
+    /// the Connector object was first used for a connection with this configuration, then reconfigured through its
+    /// setters; the observed connection must only reflect the final configuration
+    #[serde(default)]
+    pub previous: Option<Box<ClientCfg>>,
 }
 
 pub fn searchable(pw: &str) -> bool {
@@ -55,7 +59,18 @@ pub fn server_cfg_raw_identity(c: &Case) -> TlsServerCfg {
 pub fn run(c: &Case) -> Outcome {
     let mut out = Outcome::new();
     let scfg = server_cfg(c);
-    let run = tls::run_tls(&c.cfg, &scfg, 5, true, &mut |_| ());
+    let run = match &c.previous {
+        None => tls::run_tls(&c.cfg, &scfg, 5, true, &mut |_| ()),
+        Some(prev) => {
+            out.label("connector-reused");
+            let pc = Case { cfg: (**prev).clone(), identity: c.identity, challenge: c.challenge.clone(), user_id: c.user_id, previous: None };
+            let mut connector = tls::connector_of(prev);
+            // the first connection runs against a conforming server for that configuration; its outcome is not asserted here
+            let _ = tls::run_tls_with_connector(&mut connector, prev, &server_cfg(&pc), 5, true);
+            let mut connector = tls::reconfigure(connector, &c.cfg);
+            tls::run_tls_with_connector(&mut connector, &c.cfg, &scfg, 5, true)
+        }
+    };
     out.nontrivial(searchable(&c.cfg.password));
     out.label(if c.cfg.nla { "nla" } else { "ssl" });
     if c.cfg.restricted_admin {
@@ -326,8 +341,120 @@ pub fn decode_clear(s: &mut Src) -> ClearCase {
     ClearCase { base, reply }
 }
 
+/// A server that answers the Client Info PDU with an unusual licensing message (error alerts with every state transition,
+/// unknown message types ...). Whatever the client does next (give up, retry, resend), every Client Info PDU it sends
+/// obeys the mode and the password appears nowhere else.
+#[derive(Serialize, Deserialize, Hash, Clone, Debug)]
+pub struct LicCase {
+    pub base: Case,
+    pub license: refimpl::wire::License,
+}
+
+fn client_info_of(frame: &[u8]) -> Option<refimpl::wire::InfoPacket> {
+    if frame.len() < 4 {
+        return None;
+    }
+    match refimpl::wire::parse_domain_pdu(&frame[3..]) {
+        Ok(refimpl::wire::DomainPdu::SendDataRequest { data, .. }) => refimpl::wire::parse_client_info(data).ok(),
+        _ => None,
+    }
+}
+
+pub fn run_licence(c: &LicCase) -> Outcome {
+    let mut out = Outcome::new();
+    out.nontrivial(searchable(&c.base.cfg.password));
+    let mut scfg = server_cfg(&c.base);
+    scfg.profile.license = c.license.clone();
+    let run = tls::run_tls(&c.base.cfg, &scfg, 2, false, &mut |_| ());
+    if c.base.cfg.restricted_admin {
+        out.label("restricted-admin");
+    }
+    if run.client_timeout || run.report.timeout {
+        out.fail("inconclusive:timeout", "a socket timeout hit (machine too slow or a hang); not counted as a violation");
+        return out;
+    }
+    if let Res::Panic(p) = &run.connect {
+        fail_panic(&mut out, "Connector::connect", p);
+        return out;
+    }
+    out.label(if run.connect.is_ok() { "ok" } else { "err" });
+    let server = match &run.report.server {
+        Some(s) => s,
+        None => return out,
+    };
+    let needles: Vec<(&str, Vec<u8>)> = vec![
+        ("utf-8", c.base.cfg.password.as_bytes().to_vec()),
+        ("utf-16le", crypto::utf16le(&c.base.cfg.password)),
+        ("utf-16be", c.base.cfg.password.encode_utf16().flat_map(|u| [(u >> 8) as u8, u as u8]).collect()),
+    ];
+    let mut infos = 0;
+    for (i, (ph, f)) in server.frames.iter().enumerate() {
+        if let Some(info) = client_info_of(f) {
+            infos += 1;
+            let u = |s: &str| s.encode_utf16().collect::<Vec<u16>>();
+            let (wd, wu, wp) = if c.base.cfg.restricted_admin { (vec![], vec![], vec![]) } else { (u(&c.base.cfg.domain), u(&c.base.cfg.user), u(&c.base.cfg.password)) };
+            if info.domain != wd || info.user != wu || info.password != wp {
+                out.fail(if c.base.cfg.restricted_admin { "secrets:client-info-not-emptied" } else { "secrets:client-info" }, format!("Client Info #{} (client frame #{}, server phase {:?}) carries domain/user/password of {}/{}/{} units, expected {}/{}/{} (restricted {})", infos, i, ph, info.domain.len(), info.user.len(), info.password.len(), wd.len(), wu.len(), wp.len(), c.base.cfg.restricted_admin));
+                return out;
+            }
+            if (info.flags & INFO_AUTOLOGON != 0) != c.base.cfg.auto_logon {
+                out.fail("secrets:autologon", format!("Client Info #{}: INFO_AUTOLOGON {} but auto logon configured {}", infos, info.flags & INFO_AUTOLOGON != 0, c.base.cfg.auto_logon));
+                return out;
+            }
+        } else if searchable(&c.base.cfg.password) {
+            for (name, n) in &needles {
+                if find(f, n) {
+                    out.fail("secrets:password-in-other-pdu", format!("the {} password occurs in client frame #{} (phase {:?}), which is not a Client Info PDU", name, i, ph));
+                    return out;
+                }
+            }
+        }
+    }
+    if infos >= 2 {
+        out.label("client-info-resent");
+    }
+    if searchable(&c.base.cfg.password) {
+        let raw: Vec<u8> = run.log.iter().flat_map(|e| e.1.iter().copied()).collect();
+        for (name, n) in &needles {
+            if find(&raw, n) {
+                out.fail("secrets:password-on-raw-transport", format!("the {} password occurs on the raw transport", name));
+                return out;
+            }
+        }
+    }
+    out
+}
+
+fn licence_cases() -> Vec<LicCase> {
+    use refimpl::wire::License;
+    let mut v = Vec::new();
+    let mut lics: Vec<License> = Vec::new();
+    // ERROR_ALERT (0xFF) with every known error code x every state transition, other message types
+    for error in [1u32, 2, 3, 4, 6, 7, 8, 9, 0xA, 0xB, 0xC, 0, 0xFFFF_FFFF] {
+        for transition in [1u32, 2, 3, 4, 0, 5] {
+            lics.push(License::Custom { msg_type: 0xFF, flags: 0x03, error, transition, blob_type: 4, blob: vec![] });
+        }
+    }
+    for msg_type in [0x01u8, 0x02, 0x03, 0x04, 0x12, 0x13, 0x15, 0x00] {
+        lics.push(License::Custom { msg_type, flags: 0x03, error: 7, transition: 2, blob_type: 4, blob: vec![1, 2, 3, 4] });
+    }
+    for (k, l) in lics.into_iter().enumerate() {
+        for bits in [0u8, 2, 3, 8 | 2, 16 | 2 | 1, 4 | 1] {
+            let seed = [bits ^ 0x17, k as u8, 9, 77, 31, 250, 4, 180, 66, 10, 20, 30, 222, 111, 5, 77, 200];
+            let mut b = gen_case(&mut Src::new(&seed), Some(bits));
+            b.cfg.password = format!("L1c#{}-p4ss-{}", bits, k);
+            b.cfg.user = "Administrator".into();
+            b.cfg.domain = "CONTOSO".into();
+            b.challenge.flags |= ntlm::NEG_UNICODE;
+            v.push(LicCase { base: b, license: l.clone() });
+        }
+    }
+    v
+}
+
 pub fn gen_case(s: &mut Src, opts: Option<u8>) -> Case {
     let bits = opts.unwrap_or_else(|| s.below(32) as u8);
+    let reuse = opts.is_none() && s.chance(64);
     let domain = gen_name(s, 12);
     let user = {
         let u = gen_name(s, 12);
@@ -362,7 +489,25 @@ pub fn gen_case(s: &mut Src, opts: Option<u8>) -> Case {
         nla: bits & 1 != 0,
         check_certificate: false,
     };
-    Case { cfg, identity: s.below(4) as u8, challenge, user_id: crate::gen::gen_user_id(s) }
+    let identity = s.below(4) as u8;
+    let user_id = crate::gen::gen_user_id(s);
+    // an earlier use of the same Connector under other options (a hash cannot be unset, so it stays as it is)
+    let previous = if reuse {
+        let pb = s.below(32) as u8;
+        let mut p = cfg.clone();
+        p.auto_logon = pb & 8 != 0;
+        p.restricted_admin = pb & 2 != 0;
+        p.blank_creds = pb & 4 != 0;
+        p.nla = pb & 1 != 0;
+        if s.bool() {
+            p.password = format!("0ld-{}", p.password);
+            p.user = format!("old{}", p.user);
+        }
+        Some(Box::new(p))
+    } else {
+        None
+    };
+    Case { cfg, identity, challenge, user_id, previous }
 }
 
 fn matrix() -> Vec<Case> {
@@ -371,6 +516,26 @@ fn matrix() -> Vec<Case> {
         for k in 0..2u8 {
             let seed = [bits.wrapping_mul(37).wrapping_add(k), 3, 200, 7, 99, 250, 4, 180, 66, 10, 20, 30, 222, 111, 5, 77, 200, 9, 9, 9, 130, 140, 150, 160, 170, 1, 2, 3, 4, 5, 6, 7, 8, 9, 10, 11, 12];
             v.push(gen_case(&mut Src::new(&seed), Some(bits)));
+        }
+    }
+    // a Connector used under one option combination, then reconfigured to another: every ordered pair of the 16
+    // combinations of {NLA, restricted admin, blank credentials, auto logon}
+    for a in 0..16u8 {
+        for b in 0..16u8 {
+            let seed = [a ^ 0x21, b, 9, 77, 31, 250, 4, 180, 66, 10, 20, 30, 222, 111, 5, 77, 200];
+            let mut c = gen_case(&mut Src::new(&seed), Some(b));
+            c.cfg.password = format!("N3w-p4ss-{}-{}", a, b);
+            c.cfg.user = "Administrator".into();
+            c.cfg.domain = "CONTOSO".into();
+            c.challenge.flags |= ntlm::NEG_UNICODE;
+            let mut p = c.cfg.clone();
+            p.nla = a & 1 != 0;
+            p.restricted_admin = a & 2 != 0;
+            p.blank_creds = a & 4 != 0;
+            p.auto_logon = a & 8 != 0;
+            p.password = format!("0ld-p4ss-{}-{}", a, b);
+            c.previous = Some(Box::new(p));
+            v.push(c);
         }
     }
     // every option combination x {empty, short, long, non-ASCII} password x {empty, non-empty} domain x certificate checking on (CA-signed identity) / off
@@ -405,6 +570,8 @@ pub fn check(rep: &Report) {
     rep.assume("the negative search uses passwords of >= 6 UTF-16 units with >= 4 distinct units; shorter ones are run but not searched for");
     rep.assume("side channels other than bytes on the transport are out of scope");
     rep.list("option-matrix", matrix(), run);
+    rep.list("licence-variants", licence_cases(), run_licence);
+    rep.require("licence-variants", "restricted-admin", 100);
     rep.list("clear-text-server", clear_cases(), run_clear);
     rep.random("clear-text-server-random", rep.tier.n(20_000, 500_000), 160, decode_clear, run_clear);
     rep.require("clear-text-server-random", "selects-plain-rdp", 2000);
@@ -413,4 +580,5 @@ pub fn check(rep: &Report) {
     rep.require("connections", "blank-creds", 100);
     rep.require("connections", "hash", 100);
     rep.require("option-matrix", "oem-challenge", 50);
+    rep.require("option-matrix", "connector-reused", 200);
 }
